@@ -151,15 +151,20 @@ func (v *VestWorld) Advance(dt int64) {
 		}
 	}
 	v.NowNs += dt
-	v.Ctx = v.Ctx.WithBlockTime(nsTime(v.NowNs))
+	// (time passing means later blocks: the height moves on as well, by one or - for long steps - by many)
+	v.Ctx = v.Ctx.WithBlockTime(nsTime(v.NowNs)).WithBlockHeight(v.Ctx.BlockHeight() + 1 + dt/(6*secNs))
 }
 
 func (v *VestWorld) SetNow(ns int64) {
 	if ns > maxNowNs {
 		ns = maxNowNs
 	}
+	step := ns - v.NowNs
+	if step < 0 {
+		step = 0
+	}
 	v.NowNs = ns
-	v.Ctx = v.Ctx.WithBlockTime(nsTime(v.NowNs))
+	v.Ctx = v.Ctx.WithBlockTime(nsTime(v.NowNs)).WithBlockHeight(v.Ctx.BlockHeight() + 1 + step/(6*secNs))
 }
 
 // NextFresh returns a deterministic address that has never been used in this world.
